@@ -181,6 +181,7 @@ func main() {
 			next = genFrames(r, w, next, a.Tier)
 			next = genProto(r, w, next, a.Tier)
 			next = genPayload(r, w, next, a.Tier)
+			next = genBig(r, w, next, a.Tier)
 		}
 		_ = next
 		w.Close()
@@ -232,6 +233,8 @@ func main() {
 				st.Count(fmt.Sprintf("entry.fixed=%d", fixed))
 				st.Count(fmt.Sprintf("entry.cmdlen<=%d", bucket(len(e.Cmd))))
 				st.Case(line[len(id):], fixed > 0 && varint > 0, line)
+			case "BIG":
+				runBig(id, f[1:], line, obs, st)
 			case "PAY", "PAYDEC":
 				runPayload(id, f[1:], line, obs, st)
 			case "PB", "PBDEC", "UPD", "UPDDEC":
@@ -247,6 +250,7 @@ func main() {
 			}
 		}
 		obs.Close()
+		st.Notes["entry_size_classes"] = sizeClassNote()
 		st.Write(a.Out)
 	}
 }
